@@ -57,9 +57,9 @@ RANGE_NOTE = ("Trusted: Coq kernel, ExtrOcamlBasic extraction, harness/driver. R
               "k bound values (every relative order of bound values, every inclusive/exclusive combination), run on every check.")
 
 PROPS = {
-    "C01": solver_prop(None, "other",
-        "exhaustive-small-scope + random exploration of resolve with an independent solution checker, tied to the Coq model by full-trace correspondence",
-        "NOT yet a Coq theorem (planned: resolve_ok_sound, needs the propagation invariants I7-I9 of DESIGN 5.1). Decided by exploration: every Ok result over the solver case stream is checked against the registry (root at the requested version, every selected version offered by choose_version and with available dependencies, every dependency - including on the own package - satisfied), and the Coq model of the solver must reproduce the run. Finding F1 (self-dependency) was found by this check and repaired in /repo."),
+    "C01": solver_prop("Props/Properties_C01.v", "proof",
+        "Coq proof by invariant over the whole control flow of the solver model (unit propagation with the contradicted-cache, conflict resolution, backtracking, merging of dependency incompatibilities, the add_version fast path) + queue-coverage theorem; exhaustive-small-scope and random exploration of resolve with an independent solution checker, tied to the model by full-trace correspondence",
+        "2 Coq theorems (Props/Properties_C01.v; Proofs/SolverSound1/2/.v ~1900 lines + SolverQueue/2.v): for every lawful VersionSet, every registry with well-formed dependency sets, every provider trace that agrees with the registry (any prioritisation, any choice of offered versions, any iteration order of dependency maps) and every fuel: if the model of resolve returns Ok(sol) then sol contains the root at the requested version, selects only versions the provider has and whose dependencies are available, satisfies every dependency of every selected version (a dependency on the own package counts like any other), and selects no package twice. Invariant: every dependency incompatibility of which a DECIDED package is the dependant is contradicted by the partial solution restricted to that package's decision level (established by the scan after the decision, stable under derivations and under every backtrack that keeps the decision); cache soundness; every (p,v) whose dependencies were fetched is covered by an active incompatibility (also after merging); an empty queue means no undecided positive package (C14 theorem). Oracle: every Ok result over the solver case stream is checked against the registry, and the Coq model must reproduce the run. Finding F1 (self-dependency) was found by this check and repaired in /repo."),
     "C02": solver_prop("Props/Properties_C02.v", "proof",
         "Coq proof (store validity invariant + terminal test) for any lawful VersionSet, registry, well-behaved trace and fuel; correspondence + brute-force solution search as oracle",
         "3 Coq theorems: if the model of resolve returns NoSolution on a provider trace that agrees with the registry, no set of package versions containing the root satisfies all dependencies (for every lawful VersionSet, registry, strategy/trace, fuel); follows from the proved invariant that every stored incompatibility is valid and the terminal test. Tie: full-trace correspondence of the model with the Rust resolve; oracle: complete brute-force search for a solution on every NoSolution result."),
